@@ -70,7 +70,11 @@ pub struct PointCloud {
 impl PointCloud {
     pub(crate) fn vec_from_document(document: &Document) -> Result<Vec<Self>> {
         let mut pointclouds = Vec::new();
-        if let Some(data3d_node) = document.descendants().find(|n| n.has_tag_name("data3D")) {
+        // Only a child of the root element is the list of point clouds, an element
+        // with the same name further down in the tree is not
+        let root = Some(document.root_element()).filter(|n| n.has_tag_name("e57Root"));
+        let data3d = root.and_then(|r| r.children().find(|n| n.has_tag_name("data3D")));
+        if let Some(data3d_node) = data3d {
             for n in data3d_node.children() {
                 if n.has_tag_name("vectorChild") && n.attribute("type") == Some("Structure") {
                     let pointcloud = Self::from_node(&n)?;
